@@ -94,7 +94,12 @@ def lean_sources_of(mod):
 def build_go(log):
     """harness + extractor from /repo's CURRENT working tree, hooks on"""
     with Lock("go.lock"):
+        subprocess.run([sys.executable, os.path.join(VERIF, "tools", "genglue.py")], check=True)
         shutil.copyfile(os.path.join(REPO, "go.sum"), os.path.join(GO, "go.sum"))
+        gm = open(os.path.join(GO, "go.mod")).read()
+        gm2 = re.sub(r"replace github.com/zmap/zcrypto => \S+", "replace github.com/zmap/zcrypto => " + REPO, gm)
+        if gm2 != gm:
+            open(os.path.join(GO, "go.mod"), "w").write(gm2)
         rc, out = run(["go", "build", "-tags", "verif", "-o", os.path.join(BUILD, "zvharness"), "./cmd/zvharness"],
                       cwd=GO, env=env_go(), timeout=1200)
         log.append("go build zvharness rc=%d\n%s" % (rc, out[-3000:]))
